@@ -45,7 +45,8 @@ RULE = (
     "partially created / partially published / partially deleted step directory; distinct = distinct (configuration, resulting tree)"
 )
 BOUNDS = {
-    "quick": {"initial_plate": "plate 0 is the initially observed plate, except in three configurations (initial plate 3 of 4, 2 of 5, 1 of 3) where a later step selects id 0",
+    "quick": {"directory_listing": "two configurations with every glob of the script answered in sorted resp. reverse-sorted order (the others: as the file system lists)",
+              "initial_plate": "plate 0 is the initially observed plate, except in three configurations (initial plate 3 of 4, 2 of 5, 1 of 3) where a later step selects id 0",
               "max_crashes_per_history": "unbounded (fixpoint)", "state_cap_per_config": 2500, "unit_of_execution": "one invocation of the script's main() (its whole driver loop)",
               "configs": "retrospective (batch,plates,chains,chunks) in {(1,3,1,1),(2,4,1,1),(3,5,1,1),(2,3,2,2)}; prospective (batch,iterations) in {(1,2),(2,2),(3,2)} with (1,1) and (2,2,(2,2)); plus one crash-bounded long run (batch 1 / 13 plates: every interruption point of every launch, <= 1 interruption per history)"},
     "thorough": {"max_crashes_per_history": "unbounded (fixpoint)", "state_cap_per_config": 40000, "initial_plate": "as quick plus batch 3 / 5 plates with initial plate 4",
@@ -386,6 +387,16 @@ class Sandbox:
         mutations_at_launch[j], advice, error, nodes_per_launch)."""
         materialize(self.root, tree)
         mod = script()
+        if self.cfg.get("listing"):
+            # environment dimension: the order in which the file system lists a directory is not the script's to choose (it changes
+            # when directories are removed and re-created); here every glob of the script answers in sorted / reverse-sorted order
+            import glob as _real_glob
+            import types as _types
+            rev = self.cfg["listing"] == "desc"
+            proxy = _types.SimpleNamespace(**{n_: getattr(_real_glob, n_) for n_ in dir(_real_glob) if not n_.startswith("__")})
+            proxy.glob = lambda *a, **k: sorted(_real_glob.glob(*a, **k), reverse=rev)
+            proxy.iglob = lambda *a, **k: iter(sorted(_real_glob.glob(*a, **k), reverse=rev))
+            mod.glob = proxy
         fake = FakeNextflow(self.dag_source, self.root)
         if crash and crash[0] == "pipeline":
             fake.crash = (crash[1], crash[2], crash[3])
@@ -889,8 +900,8 @@ ODD = [{"mode": "retrospective", "batch": 2, "plates": 4, "chains": 1, "chunks":
 
 # plate id 0 is NOT the initially observed plate, so some step selects id 0 (a falsy number, the first line of a listing)
 ZERO_LATE = [{"mode": "retrospective", "batch": 2, "plates": 4, "chains": 1, "chunks": 1, "initial": 3},
-             {"mode": "prospective", "batch": 2, "plates": 5, "chains": 1, "chunks": 1, "iterations": 2, "initial": 2},
-             {"mode": "retrospective", "batch": 1, "plates": 3, "chains": 1, "chunks": 1, "initial": 1}]
+             {"mode": "prospective", "batch": 2, "plates": 5, "chains": 1, "chunks": 1, "iterations": 2, "initial": 2, "listing": "desc"},
+             {"mode": "retrospective", "batch": 1, "plates": 3, "chains": 1, "chunks": 1, "initial": 1, "listing": "asc"}]
 
 
 def configs(tier):
